@@ -69,13 +69,27 @@ theorem newSubConn_no_events_if_connecting {s : St}
     newSubConn s = (s, []) := by
   simp [newSubConn, h]
 
-/-- C03.2 the plain-pick path adds a connection only if every slot of its ready list is at or above
+theorem newSubConn_no_events_if_room {s : St} (h : readyBelowWm s = true) : newSubConn s = (s, []) := by
+  simp [newSubConn, h]
+
+/-- what `readyBelowWm s = false` says: every READY channel of the pool — whether the picker that was
+    used lists it or not — carries at least watermark-many streams -/
+theorem all_ready_saturated {s : St} {c : Cfg} (hc : s.cfg = some c) (h : readyBelowWm s = false) :
+    ∀ r ∈ s.refs, lookup s.scStates r.subConn = some .ready → (c.wm : Int) ≤ r.streamsCnt := by
+  intro r hr hst
+  unfold readyBelowWm at h
+  rw [hc] at h
+  simp only [List.any_eq_false, Bool.and_eq_true, beq_iff_eq, decide_eq_true_eq, not_and] at h
+  have := h r hr hst
+  omega
+
+/-- C03.2 the plain-pick path adds a connection only if every READY channel of the pool (F37) and every slot of its ready list is at or above
     the watermark, the pool is below maxSize and no connection is idle or connecting; and then the
     call is told to wait -/
 theorem growth_only_when_saturated {s s' : St} {c : Cfg} {l : List Slot} {r : Option Slot} {ev : List Event}
     (h : getLeastBusy s c l = (s', r, ev)) (hev : ev ≠ []) :
     r = none ∧ (∀ j ∈ l, (c.wm : Int) ≤ streamsOf s j) ∧ (c.max = 0 ∨ s.scRefs.length < c.max) ∧
-    s.scStates.any (fun p => p.2 == .connecting || p.2 == .idle) = false := by
+    s.scStates.any (fun p => p.2 == .connecting || p.2 == .idle) = false ∧ readyBelowWm s = false := by
   unfold getLeastBusy at h
   cases hm : leastBusy s l with
   | none => rw [hm] at h; simp at h; first | exact absurd h.2.2 hev | exact absurd h.2.2.symm hev
@@ -92,8 +106,12 @@ theorem growth_only_when_saturated {s s' : St} {c : Cfg} {l : List Slot} {r : Op
         · rw [newSubConn_no_events_if_connecting hany] at h
           simp only [Prod.mk.injEq] at h
           first | exact absurd h.2.2 hev | exact absurd h.2.2.symm hev
-        · simp only [Prod.mk.injEq] at h
-          refine ⟨h.2.1.symm, ?_, ?_, by simpa using hany⟩
+        · by_cases hroom : readyBelowWm s = true
+          · rw [newSubConn_no_events_if_room hroom] at h
+            simp only [Prod.mk.injEq] at h
+            first | exact absurd h.2.2 hev | exact absurd h.2.2.symm hev
+          simp only [Prod.mk.injEq] at h
+          refine ⟨h.2.1.symm, ?_, ?_, by simpa using hany, by simpa using hroom⟩
           · intro j hj
             have := hspec.2 j hj
             omega
